@@ -296,7 +296,7 @@ enum DK { Const, Fun, Rec }
 
 fn order_program(kinds: &[DK], refs: &[Vec<usize>], names: &[String], body_refs: &[usize]) -> E {
     let int = || E::TyInt;
-    let use_of = |j: usize| -> E { match kinds[j] { DK::Const => prog::var(&names[j]), _ => prog::app(prog::var(&names[j]), prog::lit(1)) } };
+    let use_of = |j: usize| -> E { match kinds[j] { DK::Const => prog::var(&names[j]), DK::Fun => prog::app(prog::var(&names[j]), prog::lit(1)), DK::Rec => prog::app(prog::var(&names[j]), prog::lit(2)) } };
     let sum = |init: E, js: &[usize]| js.iter().fold(init, |acc, j| prog::bin(0, acc, use_of(*j)));
     let mut defs = vec![];
     for (i, k) in kinds.iter().enumerate() {
